@@ -238,6 +238,30 @@ func ruleR07g(c *Ctx) {
 						walk(s.Else, fromParams, guarded)
 					}
 					return false
+				case *ast.AssignStmt:
+					// a set of names kept as a map: names[param] = true
+					for _, l := range s.Lhs {
+						ix, ok := l.(*ast.IndexExpr)
+						if !ok {
+							continue
+						}
+						if _, isField := ast.Unparen(ix.X).(*ast.SelectorExpr); isField {
+							continue
+						}
+						if tv, ok := info.Types[ix.X]; !ok {
+							continue
+						} else if _, isMap := tv.Type.Underlying().(*types.Map); !isMap {
+							continue
+						}
+						n++
+						a := ix.Index
+						ok2 := guarded[exprKey(a)]
+						if aid, isID := ast.Unparen(a).(*ast.Ident); isID && fromParams[info.Uses[aid]] {
+							ok2 = true
+						}
+						c.check(ok2, "R07g", fmt.Sprintf("parsepasses.templateChecker.checkCall data=all passes %s#%d", exprKey(ix.X), n), s.Pos(),
+							"the name comes from the caller's declared params", "under data=\"all\" the call is taken to pass "+exprKey(a)+", which is not drawn from the caller's declared params (tc.params): a {let} or loop variable of that name satisfies a required param that the rendered call never receives")
+					}
 				case *ast.CallExpr:
 					if id, ok := s.Fun.(*ast.Ident); ok && id.Name == "append" && len(s.Args) >= 2 {
 						if _, isField := ast.Unparen(s.Args[0]).(*ast.SelectorExpr); isField {
